@@ -23,6 +23,44 @@ def namer_for(root, cfg):
                      max_filename_length=cfg['ml'] or None)
 
 
+_OPT_CACHE = {}
+
+
+def namer_from_options(root, cfg, variant):
+    """The PathNamer as the application builds it from the command line (FileWriterSetupTask._build_file_writer):
+    the same configuration expressed as options.  variant chooses between equivalent spellings (default OS mode
+    left out / named, order of the modes)."""
+    import types
+    from wpull.application.options import AppArgumentParser
+    from wpull.application.builder import Builder
+    from wpull.application.tasks.writer import FileWriterSetupTask
+    modes = []
+    if cfg['os'] == 'windows' or variant % 2 == 1:
+        modes.append(cfg['os'])
+    if not cfg['nc']:
+        modes.append('nocontrol')
+    if cfg['asc']:
+        modes.append('ascii')
+    if cfg['cs'] != 'none':
+        modes.append(cfg['cs'])
+    if variant % 4 >= 2:
+        modes.reverse()
+    argv = ['http://h/', '-P', root, '--default-page', 'index.html', '--cut-dirs', str(cfg['cut'])]
+    argv += ['--force-directories'] if cfg['ud'] else ['--no-directories']
+    if modes:
+        argv.append('--restrict-file-names=' + ','.join(modes))
+    if cfg['pr']:
+        argv.append('--protocol-directories')
+    if not cfg['hn']:
+        argv.append('--no-host-directories')
+    if cfg['ml']:
+        argv += ['--max-filename-length', str(cfg['ml'])]
+    args = AppArgumentParser().parse_args(argv)
+    session = types.SimpleNamespace(args=args, factory=Builder(args).factory)
+    writer = FileWriterSetupTask._build_file_writer(session)
+    return writer._path_namer
+
+
 class RecordingSession(OverwriteFileWriterSession):
     """The real session; open_file additionally notes the path it was asked to create and tolerates the
     operating system refusing it (name too long, NUL): C15 is about the path that was chosen."""
@@ -59,11 +97,14 @@ def run_scenario(s, root):
     cfg = s['cfg']
     rec = {'cl': s['cl'], 'cfg': cfg, 'part': s['part'], 'cd': s['cd'], 'hascd': s['hascd'], 'nurl': [],
            'raw': s['url'], 'oc': 'none', 'exc': '', 'pre': False, 'parts': [], 'inside': False,
-           'os': cfg['os'], 'nc': cfg['nc']}
+           'os': cfg['os'], 'nc': cfg['nc'], 'opt': s.get('opt')}
     old = signal.signal(signal.SIGVTALRM, _alarm)
     signal.setitimer(signal.ITIMER_VIRTUAL, WATCHDOG_S)
     try:
-        namer = namer_for(root, cfg)
+        if s.get('opt') is not None:
+            namer = namer_from_options(root, cfg, s['opt'])
+        else:
+            namer = namer_for(root, cfg)
         if s['cl'] == 'P':
             comp = namer.safe_filename(text_of(s['part']))
             # a single component: it is NOT split on the separator
